@@ -24,18 +24,30 @@ fn extension_docs() -> Vec<Val> {
 }
 
 fn fixed_point(out: &mut Out, rng: &mut Rng, what: &str, a: Fmt, b: Fmt, input: &[u8]) -> Option<Vec<u8>> {
-	let first = translate(input, &Supply::Slice, Some(a), b);
+	// both supply modes at the first hop too (the second one with fewer
+	// second-hop variants, for time)
+	let by_slice = fixed_point_from(out, rng, what, a, b, input, &Supply::Slice);
+	fixed_point_from(out, rng, what, a, b, input, &Supply::Reader(vec![]));
+	by_slice
+}
+
+fn fixed_point_from(out: &mut Out, rng: &mut Rng, what: &str, a: Fmt, b: Fmt, input: &[u8], first_supply: &Supply) -> Option<Vec<u8>> {
+	let first = translate(input, first_supply, Some(a), b);
 	if !first.ok() {
 		out.count("first_hop.refused");
 		return None;
 	}
-	for supply in [Supply::Slice, Supply::Reader(vec![]), random_supply(rng)] {
+	let seconds = if matches!(first_supply, Supply::Slice) { vec![Supply::Slice, Supply::Reader(vec![]), random_supply(rng)] } else { vec![Supply::Slice, random_supply(rng)] };
+	for supply in seconds {
 		let again = translate(&first.output, &supply, Some(b), b);
 		out.eval("fixed_point", &format!("{}{}{}{}", a.name(), b.name(), supply.describe(), hex(input)), !first.output.is_empty());
 		if !again.ok() || again.output != first.output {
 			// TOML: the three-pass order of the toml crate is not idempotent in
 			// general; recognise known finding K4 by comparing values.
-			let class = if b == Fmt::Toml {
+			let class = if b == Fmt::Toml && a == Fmt::Json && matches!(first_supply, Supply::Slice) && crate::props::c02::json_has_toml_datetime_key(input) {
+				// K11: only the slice path of JSON → TOML writes the private key as a table
+				"K11-json-toml-datetime-key"
+			} else if b == Fmt::Toml {
 				match (read_docs(Fmt::Toml, &first.output), read_docs(Fmt::Toml, &again.output)) {
 					(Ok(x), Ok(y)) if again.ok() && x.len() == 1 && y.len() == 1 && x[0].toml_written_order() == y[0] => "K4-toml-three-groups",
 					_ => "",
@@ -47,10 +59,11 @@ fn fixed_point(out: &mut Out, rng: &mut Rng, what: &str, a: Fmt, b: Fmt, input: 
 				"fixed_point",
 				class,
 				format!(
-					"[{what}] {}→{} of {} gives {}, but translating that output {}→{} ({}) gives {}",
+					"[{what}] {}→{} of {} ({}) gives {}, but translating that output {}→{} ({}) gives {}",
 					a.name(),
 					b.name(),
 					hex(input),
+					first_supply.describe(),
 					hex(&first.output),
 					b.name(),
 					b.name(),
@@ -153,6 +166,21 @@ pub fn run(out: &mut Out, rng: &mut Rng, thorough: bool) {
 			}
 		}
 	}
+	// TOML date-times (an extension of the TOML pairs), and the way they travel
+	// through the other formats: the toml crate's private key.
+	let raw: Vec<(Fmt, &[u8])> = vec![
+		(Fmt::Toml, b"d = 1979-05-27T07:32:00Z\nl = 1979-05-27\nt = 07:32:00\n\n[x]\nodt = 1979-05-27T00:32:00.999-07:00\nldt = 1979-05-27T07:32:00\n"),
+		(Fmt::Toml, b"ds = [1979-05-27, 2000-01-01]\n"),
+		(Fmt::Json, b"{\"d\":{\"$__toml_private_datetime\":\"1979-05-27T07:32:00Z\"},\"e\":1}\n"),
+		(Fmt::Yaml, b"d:\n  $__toml_private_datetime: 1979-05-27T07:32:00Z\ne: 1\n"),
+		(Fmt::Msgpack, b"\x81\xa1d\x81\xb8$__toml_private_datetime\xb41979-05-27T07:32:00Z"),
+	];
+	for (a, input) in raw {
+		for &b in &ALL_FMTS {
+			out.count("datetime.tried");
+			fixed_point(out, rng, "toml-datetime", a, b, input);
+		}
+	}
 	// Wide documents: hundreds to thousands of collections in ONE document.
 	for n in [400usize, 600, 2000] {
 		let v = Val::Seq(
@@ -181,6 +209,19 @@ pub fn run(out: &mut Out, rng: &mut Rng, thorough: bool) {
 					fixed_point(out, rng, "size-boundary", a, b, &input);
 					there_and_back(out, rng, &v, a, b, &input);
 				}
+			}
+		}
+	}
+	// Past 2^20 elements, MessagePack and JSON only.
+	{
+		let n = (1usize << 20) + 1;
+		let arr = Val::Seq((0..n).map(|i| Val::Int((i % 9) as i128)).collect());
+		for &a in &[Fmt::Msgpack, Fmt::Json] {
+			let Some(input) = spell(a, &arr, &Spelling::plain()) else { continue };
+			for &b in &[Fmt::Msgpack, Fmt::Json] {
+				out.count("sizes.beyond_2_pow_20");
+				fixed_point(out, rng, "size-2^20", a, b, &input);
+				there_and_back(out, rng, &arr, a, b, &input);
 			}
 		}
 	}
